@@ -18,6 +18,7 @@ import (
 	"sort"
 	"strings"
 	"sync"
+	"sync/atomic"
 	"syscall"
 	"time"
 
@@ -184,8 +185,21 @@ func vfQuiescentSig() (string, string) {
 // with an unchanged state signature, i.e. nothing in the process can wake anything
 // (transports are in-memory and the harness uses no timers while waiting).
 // vfTimeout (generous wall-clock cap) is "inconclusive".
+// The cap does not fire on the clock alone either: the clock of a virtual machine
+// can jump (pause/resume, a frozen host) and a starved process can lose minutes
+// without running at all, and then every deadline of every process expires at
+// once. The cap needs, besides the elapsed time, that this goroutine itself was
+// scheduled for the polls that fit in half of it.
+// vfCapFired is set while the most recent wait of the process ended on its
+// wall-clock cap: what a check reports about that wait is recorded as inconclusive
+// (vfUnit.Violation), whatever the call site does with the result.
+var vfCapFired atomic.Bool
+
 func vfAwait(done <-chan struct{}, limit time.Duration) (vfWait, string) {
+	vfCapFired.Store(false)
 	deadline := time.Now().Add(limit)
+	needPolls := int(limit / (40 * time.Millisecond))
+	polls := 0
 	// fast path
 	for i := 0; i < 50; i++ {
 		select {
@@ -204,6 +218,7 @@ func vfAwait(done <-chan struct{}, limit time.Duration) (vfWait, string) {
 			return vfDone, ""
 		case <-time.After(20 * time.Millisecond):
 		}
+		polls++
 		sig, _ := vfQuiescentSig()
 		if sig != "" && sig == lastSig {
 			stable++
@@ -226,7 +241,7 @@ func vfAwait(done <-chan struct{}, limit time.Duration) (vfWait, string) {
 			stable = 0
 			lastSig = sig2
 		}
-		if time.Now().After(deadline) {
+		if polls >= needPolls && time.Now().After(deadline) {
 			_, dump := vfQuiescentSig()
 			if dump == "" {
 				var b bytes.Buffer
@@ -235,6 +250,7 @@ func vfAwait(done <-chan struct{}, limit time.Duration) (vfWait, string) {
 				}
 				dump = b.String()
 			}
+			vfCapFired.Store(true)
 			return vfTimeout, dump
 		}
 	}
